@@ -12,7 +12,8 @@
    [self], every history.  Domain of the model: import paths are byte strings; it is the code's
    behaviour on ASCII paths (Go import paths are ASCII). *)
 Require Import Gengo.Base.Bytes Gengo.Model.GoIdent Gengo.Model.Tracker Gengo.Model.TrackerSpec
-               Gengo.Proofs.Tracker Gengo.Proofs.TrackerStd Gengo.Gen.StdList Gengo.Proofs.StdTable.
+               Gengo.Model.CamelCase Gengo.Proofs.Tracker Gengo.Proofs.TrackerStd Gengo.Proofs.LocalName
+               Gengo.Gen.StdList Gengo.Proofs.StdTable.
 From Coq Require Import Permutation Sorted.
 
 (* The naming never panics and always terminates (the numbered fallback loop of the repaired
@@ -115,6 +116,16 @@ Theorem C03_import_block :
   forall m, Permutation (sort_by_key m) m /\ Sorted key_le (sort_by_key m).
 Proof. exact write_imports_entries. Qed.
 Print Assumptions C03_import_block.
+
+(* What toLocalName computes, read declaratively (before the sanitising of the repaired code): the
+   camel-case words (C19's Split) of the joined segments, minus the words that are one ASCII
+   punctuation character or space, lower-cased and concatenated. *)
+Theorem C03_local_name_is_lowercased_words :
+  forall parts,
+    exists ws, split crune c_cls true (Valid (map cr (concat parts))) = Ok ws /\
+               raw_local_name parts = Ok (concat (map (map lowb) (filter kept ws))).
+Proof. exact raw_local_name_spec. Qed.
+Print Assumptions C03_local_name_is_lowercased_words.
 
 (* The reserved-name table of the current source (Gen/StdList.v, regenerated from std.list on every
    run) is what the model builds, was not changed by the repairs, is a bijection onto valid names
